@@ -40,21 +40,22 @@ import (
 // Input is one hostile input handed to the child.
 type Input struct {
 	ID      int      `json:"id"`
-	Class   string   `json:"class"`             // input class (statistics)
-	Kind    string   `json:"kind"`              // footer | blob | tar | arith | range
-	Data    []byte   `json:"data,omitempty"`    // footer bytes / blob / tar
-	ExtTOC  []byte   `json:"ext,omitempty"`     // TOC handed out by the external-TOC provider
-	Prio    []string `json:"prio,omitempty"`    // prioritized files (Build)
-	Op      string   `json:"op,omitempty"`      // arithmetic op line (Kind arith)
+	Class   string   `json:"class"`              // input class (statistics)
+	Kind    string   `json:"kind"`               // footer | blob | tar | arith | range
+	Data    []byte   `json:"data,omitempty"`     // footer bytes / blob / tar
+	ExtTOC  []byte   `json:"ext,omitempty"`      // TOC handed out by the external-TOC provider
+	Prio    []string `json:"prio,omitempty"`     // prioritized files (Build)
+	Op      string   `json:"op,omitempty"`       // arithmetic op line (Kind arith)
 	MustErr bool     `json:"must_err,omitempty"` // repaired defect: opening MUST fail with an error
-	Suspect string   `json:"suspect,omitempty"` // labelled stream of candidate findings
+	Suspect string   `json:"suspect,omitempty"`  // labelled stream of candidate findings
 	Note    string   `json:"note,omitempty"`
 }
 
 // Rec is the child-side recorder of one input.
 type Rec struct {
-	id int
-	w  *os.File
+	id    int
+	class string
+	w     *os.File
 }
 
 func (r *Rec) line(s string) { r.w.WriteString(s + "\n") }
@@ -109,14 +110,37 @@ func SiteOf(stack string) string {
 	return "unknown"
 }
 
+// OuterSiteOf is the outermost repository frame of a goroutine: the API the harness called.  Used
+// for hangs, where the innermost frame is whatever leaf happened to run when the dump was taken.
+func OuterSiteOf(stack string) string {
+	lines := strings.Split(stack, "\n")
+	res := "unknown"
+	for i := range lines {
+		if reFrame.MatchString(lines[i]) {
+			end := i + 2
+			if end > len(lines) {
+				end = len(lines)
+			}
+			if st := SiteOf(strings.Join(lines[i:end], "\n")); st != "unknown" {
+				res = st
+			}
+		}
+	}
+	return res
+}
+
 // Try runs one target with panic recovery and records its outcome class.
 func (r *Rec) Try(target string, f func() error) (class string) {
-	if skipTargets[target] {
+	if skipTargets[target] || skipTargets[target+"|"+r.class] {
 		r.line(fmt.Sprintf("R %d %s skipped", r.id, target))
 		return "skipped"
 	}
 	r.line(fmt.Sprintf("T %d %s", r.id, target))
+	t0 := time.Now()
 	defer func() {
+		if os.Getenv("VERIF_C04_TIMES") != "" {
+			fmt.Fprintf(os.Stderr, "TTIME %6d ms %s\n", time.Since(t0).Milliseconds(), target)
+		}
 		if p := recover(); p != nil {
 			site := SiteOf(string(debug.Stack()))
 			r.line(fmt.Sprintf("P %d %s %s %s", r.id, target, site, hx(fmt.Sprint(p))))
@@ -147,7 +171,7 @@ func ChildMain(run func(in *Input, rec *Rec)) {
 		lim := syscall.Rlimit{Cur: uint64(v) << 20, Max: uint64(v) << 20}
 		syscall.Setrlimit(syscall.RLIMIT_AS, &lim)
 	}
-	debug.SetMaxStack(verifutil.EnvInt("VERIF_C04_STACK_MB", 256) << 20)
+	debug.SetMaxStack(verifutil.EnvInt("VERIF_C04_STACK_MB", 64) << 20)
 	for _, t := range strings.Split(os.Getenv("VERIF_C04_SKIP"), ",") {
 		if t != "" {
 			skipTargets[t] = true
@@ -167,7 +191,7 @@ func ChildMain(run func(in *Input, rec *Rec)) {
 	}
 	defer w.Close()
 	for i := range ins {
-		rec := &Rec{id: ins[i].ID, w: w}
+		rec := &Rec{id: ins[i].ID, class: ins[i].Class, w: w}
 		rec.line(fmt.Sprintf("S %d", ins[i].ID))
 		t0 := time.Now()
 		run(&ins[i], rec)
@@ -245,9 +269,9 @@ type Config struct {
 func DefaultConfig() Config {
 	return Config{
 		Batch:     verifutil.EnvInt("VERIF_C04_BATCH_N", 150),
-		StallS:    verifutil.EnvInt("VERIF_C04_HANG_S", 10),
-		MaxHangs:  verifutil.EnvInt("VERIF_C04_MAX_HANGS", 2),
-		ChildTest:  "TestVerifC04Child",
+		StallS:    verifutil.EnvInt("VERIF_C04_HANG_S", 8),
+		MaxHangs:  verifutil.EnvInt("VERIF_C04_MAX_HANGS", 3),
+		ChildTest: "TestVerifC04Child",
 	}
 }
 
@@ -277,6 +301,9 @@ func runChild(cfg Config, ins []Input, stall time.Duration, skip []string) (*chi
 	cmd.Env = append(cmd.Env, cfg.ExtraEnv...)
 	cmd.Stdout = errf
 	cmd.Stderr = errf
+	if os.Getenv("VERIF_C04_TIMES") != "" {
+		cmd.Stderr = os.Stderr
+	}
 	cmd.Dir = cfg.WorkDir
 	if err := cmd.Start(); err != nil {
 		panic(err)
@@ -353,14 +380,14 @@ func classifyDeath(d *died) (kind, site, head string) {
 				continue
 			}
 			if strings.HasPrefix(m[1], "running") || strings.HasPrefix(m[1], "runnable") {
-				return kind, st, firstLines(b, 12)
+				return kind, OuterSiteOf(b), firstLines(b, 16)
 			}
 			if best == "" && strings.Contains(b, "erifC04Child") {
 				best = b
 			}
 		}
 		if best != "" {
-			return kind, SiteOf(best), firstLines(best, 12)
+			return kind, OuterSiteOf(best), firstLines(best, 16)
 		}
 		return kind, "unknown", firstLines(s, 12)
 	}
@@ -507,7 +534,7 @@ func Run(out *verifutil.Out, inputs []Input, cfg Config) Summary {
 			}
 			if in.MustErr {
 				for _, r := range cr.results[id] {
-					if (r[0] == "open" || r[0] == "mem" || r[0] == "db" || strings.HasPrefix(r[0], "footer")) && r[1] == "ok" {
+					if (r[0] == "open" || r[0] == "mem" || strings.HasPrefix(r[0], "footer")) && r[1] == "ok" {
 						out.Fail("repaired-input-accepted:"+in.Class, fmt.Sprintf("target %s accepted an input that must be rejected; %s", r[0], describe(in)))
 					}
 				}
@@ -549,6 +576,18 @@ func Run(out *verifutil.Out, inputs []Input, cfg Config) Summary {
 		}
 		sort.Strings(l)
 		return l
+	}
+	if only := os.Getenv("VERIF_C04_ONLY"); only != "" {
+		var keep []Input
+		for _, in := range inputs {
+			if strings.Contains(in.Class, only) {
+				keep = append(keep, in)
+			}
+		}
+		inputs = keep
+		for i := range inputs {
+			inputs[i].ID = i
+		}
 	}
 	pending := make([]int, len(inputs))
 	for i := range pending {
@@ -622,9 +661,15 @@ func Run(out *verifutil.Out, inputs []Input, cfg Config) Summary {
 		if d2 != nil {
 			reportDeath(in, cr2, d2, true)
 			if d2.how == "timeout" {
+				// A hang costs StallS*3 seconds.  The same target is not run again on inputs of
+				// the same class, and after MaxHangs hangs not at all (the gates open/mem/db are
+				// never switched off as a whole).  What was skipped is counted in the statistics;
+				// every hang that was seen is a reported violation.
 				t := cr2.lastTgt[culprit]
 				hangs[t]++
-				if hangs[t] >= cfg.MaxHangs && !skipped[t] {
+				skipped[t+"|"+in.Class] = true
+				out.Count("skipped-after-hang:" + t + "|" + in.Class)
+				if hangs[t] >= cfg.MaxHangs && !skipped[t] && t != "open" && t != "mem" && t != "db" {
 					skipped[t] = true
 					out.Count("skipped-after-hangs:" + t)
 				}
